@@ -17,9 +17,17 @@ type nativeObj struct {
 	def   *Term
 	name  string
 	w     int
+	// file-system model (fs.go)
+	node  *fsNode
+	under Value
+	buf   []*Blob
+	acc   *Term
 }
 
 func (o *nativeObj) call(p *Path, name string, args []Value) Value {
+	if r, ok := o.callFS(p, name, args); ok {
+		return r
+	}
 	p.unsupported("call %s on native %s", name, o.kind)
 	return nil
 }
@@ -378,6 +386,74 @@ func init() {
 		p.ghost["__iosize"] = args[0].(*Term)
 		return nil
 	})
+	reg(v("vFSCrashAt"), func(p *Path, _ *frame, _ *ssa.Function, args []Value) Value {
+		p.fs().crashAt = p.argInt(args[0])
+		return nil
+	})
+	reg(v("vFSOps"), func(p *Path, _ *frame, _ *ssa.Function, args []Value) Value {
+		return p.ctx.Const(64, uint64(p.fs().ops))
+	})
+	reg(v("vFSCrashed"), func(p *Path, _ *frame, _ *ssa.Function, args []Value) Value {
+		return p.ctx.Bool(p.fs().crashed)
+	})
+	reg(v("vFSApplyCrash"), func(p *Path, _ *frame, _ *ssa.Function, args []Value) Value {
+		p.fsApplyCrash()
+		return nil
+	})
+	reg(v("vFSMkdirAll"), func(p *Path, _ *frame, _ *ssa.Function, args []Value) Value {
+		p.fsMkdirAll(p.argStr(args[0]))
+		f := p.fs()
+		// make the whole tree durable (pre-existing state)
+		var walk func(n *fsNode)
+		walk = func(n *fsNode) {
+			if n.isDir {
+				f.syncDir(n)
+				for _, c := range n.children {
+					walk(c)
+				}
+			}
+		}
+		walk(f.root)
+		return nil
+	})
+	reg(v("vFSCorruptFile"), func(p *Path, _ *frame, _ *ssa.Function, args []Value) Value {
+		n := p.fs().lookup(p.argStr(args[0]))
+		if n == nil || n.isDir {
+			return p.ctx.False
+		}
+		t := p.freshStr("corrupt")
+		n.content = t.ID
+		n.durable = t.ID
+		return p.ctx.True
+	})
+	reg(v("vFSSyncAll"), func(p *Path, _ *frame, _ *ssa.Function, args []Value) Value {
+		f := p.fs()
+		var walk func(n *fsNode)
+		walk = func(n *fsNode) {
+			if n.isDir {
+				f.syncDir(n)
+				for _, c := range n.children {
+					walk(c)
+				}
+			} else {
+				n.durable = n.content
+				n.dirty = false
+			}
+		}
+		walk(f.root)
+		return nil
+	})
+	reg(v("vBlobID"), func(p *Path, _ *frame, _ *ssa.Function, args []Value) Value {
+		return p.ctx.ZExt(args[0].(*Blob).ID, 64)
+	})
+	reg(raftPkg+".snapshotName", func(p *Path, _ *frame, _ *ssa.Function, args []Value) Value {
+		f := p.fs()
+		f.nextSnap++
+		return p.strConst(fmt.Sprintf("snap-%d", f.nextSnap))
+	})
+	reg(raftPkg+".encodePeers", func(p *Path, _ *frame, _ *ssa.Function, args []Value) Value {
+		return &Blob{Nil: p.ctx.False, ID: p.ctx.Const(32, 0)}
+	})
 	reg(v("vTier"), func(p *Path, _ *frame, _ *ssa.Function, args []Value) Value {
 		return p.ctx.Const(64, uint64(p.eng.Opt.Tier))
 	})
@@ -639,6 +715,9 @@ func (p *Path) stubByPackage(pp string, fn *ssa.Function, args []Value) (Value, 
 		if r, ok := p.fsStub(fn, args); ok {
 			return r, true
 		}
+		if pp != "hash" {
+			p.unsupported("file-system model: %s", fn.String())
+		}
 	}
 	if fn.Blocks == nil {
 		return nil, false
@@ -802,6 +881,14 @@ func (p *Path) sortIntrinsic(x Iface) {
 }
 
 func (p *Path) ioCopy(fn *ssa.Function, args []Value) Value {
+	// reading a modelled file: the whole content goes to the destination
+	if src, ok := args[1].(Iface); ok {
+		if o, ok := src.V.(*nativeObj); ok && o.kind == "file" {
+			b := &Blob{Nil: p.ctx.False, ID: o.node.content}
+			p.writeTo(args[0], b)
+			return Tuple{p.lenOf(b), Iface{}}
+		}
+	}
 	// moves a symbolic byte count with a symbolic error
 	n := p.freshVar("io.copy.n", 64)
 	k := p.varCount["io.copy.n"] - 1
@@ -828,6 +915,3 @@ func (p *Path) ioCopy(fn *ssa.Function, args []Value) Value {
 	return Tuple{n, err}
 }
 
-func (p *Path) fsStub(fn *ssa.Function, args []Value) (Value, bool) {
-	return nil, false
-}
